@@ -18,6 +18,10 @@ func VH_C03_store_commit_apply_deep() { vStoreCommitApply(2, 3) }
 
 func vStoreCommitApply(L, maxQ int) {
 	r, l, a := vMkLeader(2, L, true)
+	// entries the FSM loop reads from the log are update/no-op entries here: since 6db2122 the loop decodes the
+	// configuration entries it applies, and a symbolic 1-byte payload is not a configuration (real configuration
+	// entries pass through the FSM loop in the cluster harnesses and in the C12 harnesses)
+	vNoConfigEntries()
 	cfg := r.configs.Latest
 	vAssume(cfg.Nodes[1].Voter && cfg.Nodes[2].Voter)
 	r.configs.Committed = cfg
@@ -119,6 +123,7 @@ func VH_C07_release_deep() { vRelease(2, 3) }
 
 func vRelease(L, maxQ int) {
 	r, l, _ := vMkLeader(2, L, true)
+	vNoConfigEntries()
 	cfg := r.configs.Latest
 	vAssume(cfg.Nodes[1].Voter && cfg.Nodes[2].Voter)
 	r.configs.Committed = cfg
@@ -184,6 +189,7 @@ func vRelease(L, maxQ int) {
 //verif:check C07,C16 stubs=env,valuefile,abslog reach=rejected,dirty,end desc="a non-leader rejects every task except dirty reads with NotLeaderError{Lost:false} and appends nothing; a leader in transfer or demoted rejects with InProgressError and appends nothing" bounds="batch of up to 3 tasks of any kind"
 func VH_C07_reject() {
 	r, l, _ := vMkLeader(2, 2, true)
+	vNoConfigEntries()
 	cfg := r.configs.Latest
 	r.configs.Committed = cfg
 	mode := vChoice(3) // 0: not leader, 1: transfer in progress, 2: leader demoted (non-voter)
@@ -250,6 +256,7 @@ func VH_C03_follower_apply() {
 	vSymTermState(r)
 	vAssume(r.term >= 1)
 	a := vInitLog(r, 3, 1)
+	vNoConfigEntries()
 	fsm := &vFSM{}
 	r.fsm.FSM = fsm
 	r.commitIndex = vU64("commitIndex")
